@@ -27,6 +27,9 @@ def lbool(b): return 'true' if b else 'false'
 
 def main():
     src, ns = sys.argv[1], sys.argv[2]
+    jpath = sys.argv[sys.argv.index('--json') + 1] if '--json' in sys.argv else None
+    gpath = sys.argv[sys.argv.index('--goreg') + 1] if '--goreg' in sys.argv else None
+    jout = []
     y = yaml.safe_load(open(src))
     for k in y:
         if k not in ('parameters', 'types', 'messages'): die('unknown top-level key ' + k)
@@ -40,6 +43,7 @@ def main():
         types[t['name']] = (st, t.get('size') or storage_size(st), t.get('bits', 8))
     names = set()
     out = []
+    jf, js = [], []
     def field(c, f):
         for k in f:
             if k not in ('type', 'name', 'bit', 'partial', 'description', 'min', 'max', 'length', 'padding', 'test_length'):
@@ -67,11 +71,14 @@ def main():
                 elif length == -1:
                     if size != 1: die('rest field of multi-byte elements')
                     kind = '.rest'
-                elif length == 0: kind = '.arr %d %s' % (size, lbool(signed))
+                elif length == 0:
+                    if signed: die('array of signed elements in ' + c['name'])
+                    kind = '.arr %d' % size
                 else: die('bad length')
             else:
                 if length: die('length on a scalar')
                 kind = '.scalar %d %d %d %s %s %s' % (size, bits, f.get('bit') or 0, lbool(bool(f.get('partial'))), lbool(signed), lbool(st == 'bool'))
+        jf.append(dict(name=name, kind=kind))
         return '⟨%s, %s⟩' % (lstr(name), kind)
     def slot(c, p):
         for k in p:
@@ -86,6 +93,7 @@ def main():
                 elif name.endswith('y'): name = name[:-1] + 'ies'
                 else: name += 's'
         g = p.get('group')
+        js.append(dict(name=name, ty=ty, optional=bool(p.get('optional')), repeatable=bool(p.get('repeatable')), group=g))
         return '⟨%s, %s, %s, %s, %s⟩' % (lstr(name), lstr(ty), lbool(bool(p.get('optional'))), lbool(bool(p.get('repeatable'))),
                                           'none' if g is None else 'some ' + lstr(g))
     defs = []
@@ -97,12 +105,23 @@ def main():
             dn = ('m_' if is_msg else 'p_') + c['name']
             if dn in names: die('duplicate ' + dn)
             names.add(dn)
+            jf, js = [], []
             fs = ',\n    '.join(field(c, f) for f in c.get('fields') or [])
             ss = ',\n    '.join(slot(c, p) for p in c.get('parameters') or [])
             rt = c.get('response_to')
             out.append('def %s : Container :=\n  { name := %s, typeId := %d, isMsg := %s,\n    fields := [%s],\n    slots := [%s],\n    responseTo := %s }\n' % (
                 dn, lstr(c['name']), c['type_id'], lbool(is_msg), fs, ss, 'none' if rt is None else 'some %d' % rt))
             defs.append(dn)
+            jout.append(dict(name=c['name'], typeId=c['type_id'], isMsg=is_msg, fields=jf, slots=js))
+    if jpath:
+        import json
+        json.dump(jout, open(jpath, 'w'), indent=0)
+    if gpath:
+        with open(gpath, 'w') as g:
+            g.write('//go:build verif\n\n// GENERATED from messages.yaml by yaml2lean.py - type registry for the codec harness\npackage llrp\n\nimport "reflect"\n\nvar verifTypes = map[string]reflect.Type{\n')
+            for c in jout:
+                g.write('\t"%s%s": reflect.TypeOf((*%s)(nil)).Elem(),\n' % ('m:' if c['isMsg'] else 'p:', c['name'], c['name']))
+            g.write('}\n')
     print('-- GENERATED by /verif/translators/yaml2lean.py from %s — do not edit' % src)
     print('import LLRP.Model.Schema\nnamespace %s\nopen LLRP\n' % ns)
     print('\n'.join(out))
